@@ -203,8 +203,9 @@ def _df(shard):
     out = {"evals": 0, "nontrivial": 0, "failures": [], "samples": [], "extra": {}}
     seen = set()
     N = 64
-    df0 = pd.DataFrame({"a": records.id1(N), "b": records.id2(N), "c": records.id3(N), "label": [f"r{i}" for i in range(N)]})
-    for fs, seconds, cols, inplace, suffix in itertools.product((1.0, 4.0, 0.5), (0.25, -1.5, 2.0, 0.0), (None, ["a"], ["a", "c"], ["b", "label"]),
+    df0 = pd.DataFrame({"a": records.id1(N), "b": records.id2(N), "c": (np.arange(N, dtype=np.int64) * 7) % 23 - 5,
+                        "label": [f"r{i}" for i in range(N)]})
+    for fs, seconds, cols, inplace, suffix in itertools.product((1.0, 4.0, 0.5), (0.25, -1.5, 2.0, 0.0), (None, ["a"], ["a", "c"], ["c"], ["b", "label"]),
                                                                (False, True), ("_shifted", "_s")):
         case = dict(shard)
         out["evals"] += 1
@@ -223,7 +224,7 @@ def _df(shard):
             prob.append("input frame modified")
         sel = [c for c in (cols if cols is not None else list(df0.columns)) if c != "label"]
         for c in ("a", "b", "c"):
-            want = np.asarray(timeshift(df0[c].to_numpy().copy(), seconds * fs)) if seconds != 0 else df0[c].to_numpy()
+            want = np.asarray(timeshift(df0[c].to_numpy().copy(), seconds * fs), dtype=float) if seconds != 0 else df0[c].to_numpy()
             if seconds == 0:
                 if not np.array_equal(r[c].to_numpy(), df0[c].to_numpy()):
                     prob.append(f"{c} changed by zero shift")
@@ -232,7 +233,7 @@ def _df(shard):
                 tgt = c if inplace else f"{c}{suffix}"
                 if tgt not in r.columns:
                     prob.append(f"missing column {tgt}")
-                elif not np.allclose(r[tgt].to_numpy(), want, rtol=0, atol=1e-12):
+                elif not np.allclose(np.asarray(r[tgt].to_numpy(), dtype=float), want, rtol=0, atol=1e-12):
                     prob.append(f"{tgt} != timeshift(column, seconds*fs={seconds * fs})")
                 if not inplace and not np.array_equal(r[c].to_numpy(), df0[c].to_numpy()):
                     prob.append(f"original column {c} altered although inplace=False")
